@@ -2,7 +2,8 @@
    value of the polynomial *it reports* at the sample; as_samples of a list of
    dicts must normalise as the model does; missing variables / bad cases are rejected. *)
 From Coq Require Import List ZArith QArith Qcanon Bool Arith.
-From Dimod Require Import Base.Util Model.Poly Model.HPoly Model.Samples.
+From Dimod Require Import Base.Util Model.Poly Model.HPoly Model.Samples Model.EnergyCy Model.HPolyLoop.
+From Dimod Require Model.Adj Model.DqmLoop Model.PyBqm.
 Import ListNotations.
 
 Inductive case :=
@@ -12,7 +13,18 @@ Inductive case :=
 | DictsCase (ds : list (list label * list Qc))            (* list of dicts in their own key orders *)
             (seen : option (list label * list (list Qc))) (* as_samples output *)
 | HCase (p : hpoly) (ls : list label) (rows : list (list Qc)) (seen : option (list Qc))
-| DCase (o : obs) (stride : nat) (ncases : list (label * nat)) (row : list (label * Z)) (seen : option Qc).
+| DCase (o : obs) (stride : nat) (ncases : list (label * nat)) (row : list (label * Z)) (seen : option Qc)
+(* the code-shaped loop of cyQMBase._energies run on the RAW adjacency structure the object holds
+   (_ilinear / _ineighborhood), n = number of labels in use *)
+| CyCase (n : nat) (o : obs) (m : Adj.qm) (vars ls : list label) (rows : list (list Qc)) (seen : option (list Qc))
+(* cyexpression._energies on the raw expression (_iindices / _ilinear / _iquadratic), pvars = parent.variables *)
+| XCase (n : nat) (o : obs) (e : xexpr) (pvars ls : list label) (rows : list (list Qc)) (seen : option (list Qc))
+(* cyDiscreteQuadraticModel.energies + the python wrapper, run on the observed case_starts / case-level
+   biases (to_numpy_vectors) and the observed variable adjacency (_cydqm.adj) *)
+| DLoop (starts : list nat) (lin : list Qc) (quad : list (nat * nat * Qc)) (off : Qc) (adjv : list (list nat))
+        (vars ls : list label) (rows : list (list Z)) (seen : option (list Qc))
+(* pybqm.py pyBQM.energies (dict back-end) run on the observed _adj dicts *)
+| PyCase (n : nat) (o : obs) (m : PyBqm.pybqm) (ls : list label) (rows : list (list Qc)) (seen : option (list Qc)).
 
 Definition qlist_eqb := list_eqb Qc_eqb.
 
@@ -24,6 +36,26 @@ Definition check (c : case) : bool :=
       option_eqb (pair_eqb (list_eqb Nat.eqb) (list_eqb qlist_eqb)) (as_samples_dicts ds) seen
   | HCase p ls rows seen =>
       option_eqb qlist_eqb (Some (map (fun row => henergy p (row_sample ls row)) rows)) seen
+      (* the code-shaped loop of BinaryPolynomial.energies (product over each term's columns) *)
+      && option_eqb qlist_eqb (hp_energies p ls rows) seen
   | DCase o stride ncases row seen =>
       option_eqb Qc_eqb (dqm_energy (obs_poly o) stride ncases row) seen
+  | CyCase n o m vars ls rows seen =>
+      Adj.inv_b m && (length vars =? Adj.nvars m)%nat
+      && poly_coeff_eqb n (qm_poly_labels m vars) (obs_poly o)
+      && option_eqb qlist_eqb (energies_cy m vars ls rows) seen
+  | XCase n o e pvars ls rows seen =>
+      Adj.inv_b (x_base e) && (length (x_vars e) =? Adj.nvars (x_base e))%nat
+      && poly_coeff_eqb n (xexpr_poly_labels e pvars) (obs_poly o)
+      && option_eqb qlist_eqb (xexpr_energies_cy e pvars ls rows) seen
+  | DLoop starts lin quad off adjv vars ls rows seen =>
+      let d0 := DqmLoop.dqm_of_obs starts lin quad off in
+      let d := DqmLoop.mkDqm (DqmLoop.d_starts d0) adjv (DqmLoop.d_bqm d0) in
+      DqmLoop.dqm_wf_b d
+      && list_eqb (list_eqb Nat.eqb) adjv (DqmLoop.d_adjv d0)
+      && option_eqb qlist_eqb (DqmLoop.dqm_energies vars d ls rows) seen
+  | PyCase n o m ls rows seen =>
+      PyBqm.pb_wfb m
+      && poly_coeff_eqb n (PyBqm.pb_abs m) (obs_poly o)
+      && option_eqb qlist_eqb (PyBqm.pb_energies m ls rows) seen
   end.
